@@ -10,9 +10,9 @@ from .core import Ctx, Infra, casehash, log
 
 # MC_C15!Variants: the code as built and the two settings edits that are harmless alone keep NoRace; every other design
 # (one mechanism dropped) has a counterexample that is pinned here
-SAFE = ["as_built", "settings_shared", "settings_toggled"]
+SAFE = ["as_built", "settings_shared", "settings_toggled", "router_hint"]
 UNSAFE = ["default_aliased", "route_shared", "settings_shared_toggled", "registry_lazy", "typeinfos_unlocked",
-          "pattern_cache_plain", "uricache_unlocked", "unique_nil", "writers_included"]
+          "pattern_cache_plain", "uricache_unlocked", "unique_lazy", "writers_included"]
 
 
 def _design_checks(ctx):
@@ -28,23 +28,31 @@ def _design_checks(ctx):
 
     with cf.ThreadPoolExecutor(max_workers=6) as ex:
         list(ex.map(one, SAFE + UNSAFE))
+    # routers over overlapping routes: the answer is a function of document and request (RouteOrder); remembering the last match is not
+    ctx.tlc("RouteOrder", "MC_C15R.cfg", workers=1, xmx="1g", label="D RouteOrder stateless: every answer is the prescribed route")
+    ctx.tlc("RouteOrder", "MC_C15R_hinted.cfg", workers=1, xmx="1g", expect_violation=True, label="D RouteOrder hinted: pinned counterexample")
     if ctx.tier == "thorough":
-        ctx.tlc("MC_C15", "MC_C15_3.cfg", label="D as_built: all interleavings of 3 operations, NoRace NoDeadlock", timeout=3000)
+        # 7.7M states, 2-3 min: spec-only, so it runs next to generation and the concurrent runs and is joined before the verdict
+        ex3 = cf.ThreadPoolExecutor(max_workers=1)
+        return ex3.submit(ctx.tlc, "MC_C15", "MC_C15_3.cfg", workers=4, timeout=3000,
+                          label="D as_built: all interleavings of 3 operations, NoRace NoDeadlock")
+    return None
 
 
 @pipeline
 def c15(ctx: Ctx):
     ctx.assumptions = [
         "TLC; spec/SharedState.tla: every piece of process-wide or document-attached mutable state is a location; the access sequence of an operation <<entry, feature>> is composed from the entry's and the feature's accesses, transcribed from the code; all interleavings are exhausted in the model only",
-        "on the code the Go race detector is the sensor (happens-before based: it reports a race whenever both accesses occurred unordered in the run, independent of timing, but only for access pairs the chosen operations actually perform): 8 goroutines per operation released together, 100 iterations, fresh pattern strings, media types and Go types per case so first-use paths overlap",
+        "on the code the Go race detector is the sensor (happens-before based: it reports a race whenever both accesses occurred unordered in the run, independent of timing, but only for access pairs the chosen operations actually perform): 8 goroutines per operation released together, 100 (quick) / 50 (thorough) iterations, fresh pattern strings, media types and Go types per case so first-use paths overlap",
         "T.Validate, router construction and the Register* / Define* functions are documented writers and are not part of the validation-time catalogue (MC_C15 variant writers_included shows why)",
         "the error type is part of what a call returns (classified with errors.As, never by text)",
     ]
     cases = os.path.join(ctx.scratch, "cases.ndjson")
+    pending = None
     if ctx.replay:
         write_ndjson(cases, [ctx.replay["violation"]["c"]])
     else:
-        _design_checks(ctx)
+        pending = _design_checks(ctx)
         cfg = "Gen_C15_%s_seeded.cfg" % ctx.tier
         with open(ctx.spec(cfg), "w") as f:
             f.write(re.sub(r"Seed = \d+", "Seed = %d" % ctx.seed, open(ctx.spec("Gen_C15_%s.cfg" % ctx.tier)).read()))
@@ -65,7 +73,9 @@ def c15(ctx: Ctx):
             ctx.samples.append(dict(c=o["c"], outcome=o["outcome"], runs=o.get("runs", [])[:2]))
     ctx.rule = ("flat operations: every multiset of <=2 (quick) / <=3 (thorough); product operations <<entry, feature>>: each alone, "
                 "every pair of entries and every pair of features (quick; the feature / entry they meet in chosen by the seed) / every pair "
-                "(thorough); media types: every <<side, declared.sent>> alone and next to a JSON body; flat x product / media by the seed; "
+                "(thorough); media types: every <<side, declared.sent>> alone and next to a JSON body; routers over overlapping routes: every <<entry, shape>> alone and every pair on one router; flat x product / media by the seed; "
                 "process configurations (uniqueness checker replaced / nil, details off).  Each case is one concurrent run under -race; "
                 "non-trivial = at least two operations or a non-default configuration")
-    ctx.validate("Trace_C15", "Trace_C15.cfg", logp, chunk_lines=60)
+    ctx.validate("Trace_C15", "Trace_C15.cfg", logp, chunk_lines=(60 if ctx.tier == "quick" else 400))
+    if pending is not None:
+        pending.result()      # (an Infra raised by the design check surfaces here)
